@@ -88,7 +88,7 @@ REACH = ['pywbem_mock._mainprovider:MainProvider._get_reference_instnames',
 
 def plan(tier):
     if tier == 'quick':
-        return dict(cases=96, time_s=90, case_cpu_s=120)
+        return dict(cases=72, time_s=90, case_cpu_s=120)
     return dict(cases=2400, time_s=480, case_cpu_s=240)
 
 
